@@ -97,6 +97,8 @@ pub fn run(args: &[String], out: &mut Sink) {
         let _ = std::fs::remove_dir_all(&dir);
         let cfg = cfg_for(&mut rng);
         out.mark_case(format!("flock case {case}"));
+        // open attempts made per case: 6 (creation race) + 3 + 6 + 1 refused + strace + reopen + poison reopen + 2 around kill
+        out.add("evaluations", 21);
 
         // ---- creation race on an empty / absent directory ----
         if case % 2 == 1 {
